@@ -4,7 +4,7 @@ import featgen
 
 GEN_MODULES = ["Pads"]
 ASSUMPTIONS = ["feature ids within one Feat table are distinct (with duplicates the API cannot address the later ones)",
-               "labels (name-table strings) are not covered by this check yet",
+               "labels: decided on NameTable::getName itself (what gr_fref_label / gr_fref_value_label call with the label's name id) over generated name tables; the conversion of the label to UTF-8/32 is C11's",
                "the Sill loader also stores the language id in feature id 1 when that value fits (FeatureMap.cpp 'always feature id 1'); the reference includes this rule"]
 TRUSTED = ["hand-written model GrVerif/Model/Feat.lean incl. byte-level Feat/Sill parsers (tied by correspondence); mask_over_val/bit_set_count modelled by their meaning, validated for every 16-bit maximum",
            "property predicate: tools/featgen.py Ref - a plain map id -> value"]
@@ -153,6 +153,67 @@ def run(ctx):
     ml = [mutate_tables(r, l) for l in lines[: (600 if ctx.quick() else 10000)]]
     lib.correspond(ctx, res, "h_feat", "feat", ml, holds, classify=classify, exe_args=[BASE], per_chunk=40,
                    rule="malformed Feat tables (truncation, counts, offsets, versions, bit flips): loader verdict and defaults must agree with the model, no out-of-bounds access")
+    # labels are the name-table strings: on well-formed name tables (Mac and Windows records in the order the format wants, one to a
+    # few records per platform, several languages and label ids) NameTable::getName – what gr_fref_label and gr_fref_value_label call
+    # with the label's name id – must hand back the string of a record of the Unicode platform with that name id whenever there is
+    # one (the one of the requested language if there is one), and nothing when there is none
+    import struct
+    import passgen
+    nl, ninfo = [], {}
+    for _ in range(1500 if ctx.quick() else 40000):
+        recs = []
+        for _k in range(r.choice([0, 0, 1, 2])):
+            recs.append((1, 0, r.choice([0, 1]), r.randrange(256, 259), "".join(r.choice("macXYZ") for _j in range(r.randrange(1, 5)))))
+        for _k in range(r.choice([1, 1, 1, 2, 3, 6])):
+            recs.append((3, 1, r.choice([0x409, 0x409, 0x809, 0x40C, 0x411]), r.randrange(256, 259), "".join(r.choice("abcdé ") for _j in range(r.randrange(1, 6)))))
+        recs = sorted(set((a, b, c, d) for a, b, c, d, _t in recs))
+        recs = [(a, b, c, d, "".join(r.choice("abcdé ") for _j in range(r.randrange(1, 6)))) for a, b, c, d in recs]
+        strings, rows = b"", []
+        for pl, en, lang, nid, txt in recs:
+            tb = txt.encode("utf-16-be")
+            rows.append((pl, en, lang, nid, len(tb), len(strings)))
+            strings += tb
+        tab = struct.pack(">HHH", 0, len(rows), 6 + 12 * len(rows)) + b"".join(struct.pack(">6H", *x) for x in rows) + strings
+        qs = [(r.choice([0x409, 0x809, 0x40C, 0x411, 0x109, 0]), r.randrange(256, 260)) for _k in range(6)]
+        l = "name 3 1 %s %s" % (tab.hex(), ",".join("%d.%d" % x for x in qs))
+        ninfo[l] = (recs, qs)
+        nl.append(l)
+
+    def digest(units):
+        h = 7
+        for x in units:
+            h = (h * 1000003 + x + 1) % 4294967291
+        return "%d:%d" % (len(units), h)
+
+    def label_holds(line, out):
+        if out.startswith(("CRASH", "fault")):
+            return False, "crash / out-of-bounds access in NameTable"
+        if line not in ninfo or not out.startswith("ok "):
+            return (False, "a well-formed name table was refused: " + out[:60]) if line in ninfo else (None, "")
+        recs, qs = ninfo[line]
+        got = out.split()[2:]
+        for (lang, nid), g in zip(qs, got):
+            cands = [(l2, txt) for pl, en, l2, n2, txt in recs if pl == 3 and en == 1 and n2 == nid]
+            if not cands:
+                if g != "-":
+                    return False, "label %d: the name table has no Unicode-platform record with that name id, yet a string came back" % nid
+                continue
+            if g == "-":
+                return False, "label %d (language 0x%x): the name table has the string %r for it, gr_fref_label would answer NULL" % (nid, lang, cands[0][1])
+            exact = [c for c in cands if c[0] == lang]
+            allowed = exact if exact else cands
+            ok = False
+            for l2, txt in allowed:
+                u = txt.encode("utf-16-be")
+                units = [int.from_bytes(u[i:i + 2], "big") for i in range(0, len(u), 2)]
+                if g == "%d:%s" % (l2, digest(units)):
+                    ok = True
+            if not ok:
+                return False, "label %d (language 0x%x): what came back is not the string of %s record with that name id" % (nid, lang, "the requested language's" if exact else "a")
+        return True, ""
+    lib.correspond(ctx, res, "h_pass", "loader", nl, label_holds, exe_args=[BASE], per_chunk=300,
+                   classify=lambda l, o: "labels:" + ("fault" if o.startswith(("fault", "CRASH")) else "none" if set(o.split()[2:]) <= {"-"} else "some"),
+                   rule="labels: well-formed name tables (0..2 Mac records, 1..6 Windows Unicode records, 5 languages, 3 label ids) x 6 label queries each; the string handed back must be the name table's")
     return res.as_dict()
 
 
